@@ -892,7 +892,8 @@ class NewRecipeSpecStore(Store):
                                 + f"/-Ryaml/{directory}/{i}#"
                                 + (d.get("filename") or "")
                             )
-                            d["recipes_key"] = self.to_root_key(recipes_key)
+                            # a key of THIS store: key-translating stores above it re-prefix it (KeyTranslatingStore.get_metadata)
+                            d["recipes_key"] = recipes_key
 
                             
                             d["recipes_directory"] = (
